@@ -29,7 +29,8 @@ Theorems (all for arbitrary states / trees / amounts / histories, no size bound)
   re-parent, which re-add `ChildRequest`/`Used` of such a group as if they were its own pods); no pods cached in
   the root group; the touched group declares the dimension (the property fixes one shared dimension set);
   the old pod object handed to a handler is the one delivered last (informer consistency);
-  MigratePod is called for a cached pod and a target that does not hold it.
+  MigratePod is called for a cached pod (a target that already holds the pod is left alone — repair 5a63beb —, so
+  nothing is required of the target beyond existing and declaring the dimension).
   T6 `delta_commute_sections`, `section_preserves_invariant`, `interleaving_*`, `handlers_interleaving_*`:
      the SCHEDULES quantifier — pod handlers on distinct pods interleaved at the granularity of their separately
      locked sections (see the section "SCHEDULES" below).  Not covered: two handlers for the SAME pod in flight at
